@@ -263,6 +263,10 @@ static bool run_transition(const Cli& cli, const History& hist, const Op& o, int
     // canonical form of the reached state: taken right after the operation, before any monitor runs (monitors build
     // temporary vectors; if the library leaks one of their blocks the ledger part of the canon would differ from
     // what a plain replay of the history reaches)
+#ifdef HX_FOOTPRINT
+    // C19: the recorded const operations come first, before any other (unrecorded) call into the library
+    if (!in_fault && completed && cli.prm.on("C19")) e->footprint_monitors();
+#endif
     std::string canon = (in_fault || !completed) ? std::string("-") : e->canon();
     if (in_fault && completed && env::L().faults_thrown == 0)
     {
@@ -282,9 +286,6 @@ static bool run_transition(const Cli& cli, const History& hist, const Op& o, int
     {
         e->transition_monitors(pre, o);
         e->inspect();
-#ifdef HX_FOOTPRINT
-        if (env::viols().empty() && cli.prm.on("C19")) e->footprint_monitors();
-#endif
     }
     const Ctx ctx = e->ctx();
     // terminal check: destroy everything, the ledger and the registry must be empty (only from a clean state)
@@ -322,6 +323,7 @@ struct Node
     Op op;
     uint16_t depth;
     uint8_t xd;
+    uint8_t polluted;  // reached through a transition at which monitors of other properties fired
 };
 
 static std::vector<Node> nodes;
@@ -473,7 +475,7 @@ int main(int argc, char** argv)
     const double t0 = now();
     mkdir(cli.tmpdir.c_str(), 0777);
     const std::string tmpbase = cli.tmpdir + "/eng." + std::to_string(getpid());
-    nodes.push_back(Node{-1, Op{}, 0, 0});
+    nodes.push_back(Node{-1, Op{}, 0, 0, 0});
     node_canon.push_back("-");
     std::unordered_set<std::string> visited;
     std::unordered_set<std::string> obs_seen;
@@ -541,8 +543,12 @@ int main(int argc, char** argv)
                                 _exit(0);
                             }
                             const std::vector<Op> ops = hist.empty() ? e->initial_ops() : e->enabled();
-                            e->terminal_check();
-                            delete e;
+                            if (!nodes[static_cast<size_t>(idx)].polluted)
+                            {
+                                e->terminal_check();
+                                delete e;
+                            }
+                            // (a polluted state is not destroyed: its objects may be inconsistent; it is leaked)
                             alarm(0);
                             g_prog->in_flight = 0;
                             const bool resumed = q == pos && op_resume >= 0;
@@ -585,6 +591,15 @@ int main(int argc, char** argv)
                         if (WIFSIGNALED(st) && WTERMSIG(st) == SIGALRM) why = "timeout";
                         if (g_prog->crash[0]) why = std::string(g_prog->crash) + "," + why;
                         if (g_prog->tag[0]) why += std::string("@") + g_prog->tag;
+                        if (g_prog->op < 0 && nodes[static_cast<size_t>(mine[static_cast<size_t>(pos)])].polluted)
+                        {
+                            // the state was already inconsistent under another property's monitors: it cannot be explored
+                            write_all(fd, "B\t" + std::to_string(mine[static_cast<size_t>(pos)]) + "\t0\nD\n");
+                            ++pos;
+                            op_resume = -1;
+                            fail_resume = 0;
+                            continue;
+                        }
                         if (g_prog->op < 0)
                         {
                             write_all(fd, "X\t" + std::to_string(mine[static_cast<size_t>(pos)]) +
@@ -812,7 +827,8 @@ int main(int argc, char** argv)
                 Op o;
                 parse_op(r.op, o);
                 const uint16_t d = static_cast<uint16_t>(par.depth + (r.xd ? 0 : 1));
-                nodes.push_back(Node{static_cast<int>(r.state), o, d, static_cast<uint8_t>(r.xd)});
+                nodes.push_back(Node{static_cast<int>(r.state), o, d, static_cast<uint8_t>(r.xd),
+                                     static_cast<uint8_t>(par.polluted || r.verdict == "FOREIGN")});
                 node_canon.push_back(r.canon);
                 ++states;
                 const long idx = static_cast<long>(nodes.size()) - 1;
